@@ -73,6 +73,7 @@ F_LOG = z3.Function("log", R, R)
 F_EXP = z3.Function("exp", R, R)
 F_SQRT = z3.Function("sqrt", R, R)
 F_POW = z3.Function("pow", R, R, R)
+F_EXPIT = z3.Function("expit", R, R)
 F_NCDF = z3.Function("norm_cdf", R, R)
 F_NPDF = z3.Function("norm_pdf", R, R)
 F_WEEKDAY = z3.Function("weekday", z3.IntSort(), z3.IntSort(), z3.IntSort())
@@ -148,6 +149,11 @@ class Lib:
         T[math.log] = lambda I, a, k, n: self.m_log(I, a[0], n)
         T[math.exp] = lambda I, a, k, n: self.m_exp(I, a[0], n)
         T[math.sqrt] = lambda I, a, k, n: self.m_sqrt(I, a[0], n)
+        try:
+            import scipy.special
+            T[scipy.special.expit] = lambda I, a, k, n: self.m_expit(I, a[0], n)
+        except ImportError:
+            pass
         try:
             import numpy as np
             T[np.log] = lambda I, a, k, n: self.m_log(I, a[0], n)
@@ -1391,6 +1397,12 @@ class Lib:
             return 1.0
         I.ctx.note_assumption(A_REAL)
         return SV(F_EXP(real_of(x)), nan_of(x))
+
+    def m_expit(self, I, x, n):
+        if isinstance(x, Obj):
+            return I.call(I.getattr(x, "logistic", n), [], {}, n)
+        I.ctx.note_assumption(A_REAL)
+        return SV(F_EXPIT(real_of(x)), nan_of(x))
 
     def m_sqrt(self, I, x, n):
         if isinstance(x, Obj):
